@@ -5,6 +5,7 @@ Only property theorems live here (helper lemmas: `Lemmas/Accessors.lean`, `Lemma
 import Bermuda.Model.Accessors
 import Bermuda.Spec.C13
 import Bermuda.Lemmas.Accessors
+import Bermuda.Lemmas.AccessorsExt
 namespace Bermuda.Properties.C13
 open Bermuda Std Bermuda.Spec.C13
 
@@ -1054,5 +1055,84 @@ def exT : List Cell :=
 disjointness test is complete on it) and a defined common metadata -/
 example : (∀ c ∈ exT, c.ps ≤ c.pe) ∧ (∀ c ∈ exT, c.md.Canon) ∧ ∃ c, Triangle.commonMetadata exT = .ok c :=
   ⟨by decide, by decide, commonMetadata_ok_of_ne_nil (by decide)⟩
+
+/-! ### is_slicewise_disjoint, slice_period_rows (triangle.py:347-352, 446-452) -/
+
+/-- **`is_slicewise_disjoint` is "no two different periods of ONE slice share a day"**, computed pairwise
+over the cells (no slices, no sorting, no adjacent-pair trick) -/
+theorem isSlicewiseDisjoint_eq_spec (t : List Cell) (hv : ∀ c ∈ t, c.ps ≤ c.pe) :
+    Triangle.isSlicewiseDisjoint t = slicewiseDisjoint t := by
+  rw [Bool.eq_iff_iff]
+  unfold Triangle.isSlicewiseDisjoint slicewiseDisjoint
+  simp only [List.all_eq_true]
+  constructor
+  · intro h a ha b hb
+    by_cases hm : a.md = b.md
+    · obtain ⟨s, hs, hs1⟩ := AccessorsExtL.slice_of_mem ha
+      have hd := h s hs
+      rw [isDisjoint_eq_spec s.2 (fun c hc => hv c ((AccessorsExtL.mem_slice_iff hs c).mp hc).1)] at hd
+      unfold disjoint at hd
+      simp only [List.all_eq_true] at hd
+      have := hd a ((AccessorsExtL.mem_slice_iff hs a).mpr ⟨ha, hs1.symm⟩) b ((AccessorsExtL.mem_slice_iff hs b).mpr ⟨hb, by rw [hs1, hm]⟩)
+      simp only [Bool.or_eq_true] at this ⊢
+      rcases this with h1 | h1
+      · exact Or.inl (Or.inr h1)
+      · exact Or.inr h1
+    · simp [hm]
+  · intro h s hs
+    rw [isDisjoint_eq_spec s.2 (fun c hc => hv c ((AccessorsExtL.mem_slice_iff hs c).mp hc).1)]
+    unfold disjoint
+    simp only [List.all_eq_true]
+    intro a ha b hb
+    obtain ⟨ha1, ha2⟩ := (AccessorsExtL.mem_slice_iff hs a).mp ha
+    obtain ⟨hb1, hb2⟩ := (AccessorsExtL.mem_slice_iff hs b).mp hb
+    have := h a ha1 b hb1
+    simp only [Bool.or_eq_true] at this ⊢
+    rcases this with (h1 | h1) | h1
+    · simp [ha2, hb2] at h1
+    · exact Or.inl h1
+    · exact Or.inr h1
+
+/-- Spec bridge: the model satisfies the predicate the driver evaluates on the implementation's answer -/
+theorem spec_isSlicewiseDisjoint (t : List Cell) (hv : ∀ c ∈ t, c.ps ≤ c.pe) :
+    slicewiseDisjointSpec t (Triangle.isSlicewiseDisjoint t) = true := by
+  unfold slicewiseDisjointSpec
+  rw [isSlicewiseDisjoint_eq_spec t hv]; exact beq_self_eq_true _
+
+/-- nesting: a disjoint triangle is slicewise disjoint -/
+theorem isSlicewiseDisjoint_of_isDisjoint (t : List Cell) (hv : ∀ c ∈ t, c.ps ≤ c.pe)
+    (h : Triangle.isDisjoint t = true) : Triangle.isSlicewiseDisjoint t = true := by
+  rw [isSlicewiseDisjoint_eq_spec t hv]
+  rw [isDisjoint_eq_spec t hv] at h
+  unfold disjoint at h
+  unfold slicewiseDisjoint
+  simp only [List.all_eq_true] at h ⊢
+  intro a ha b hb
+  have := h a ha b hb
+  simp only [Bool.or_eq_true] at this ⊢
+  rcases this with h1 | h1
+  · exact Or.inl (Or.inr h1)
+  · exact Or.inr h1
+
+/-- **`slice_period_rows` partitions the cells by (metadata, period)**: keys pairwise different and ascending
+by (metadata, period), no empty row, every cell in the row of its own key, every row ascending by evaluation
+date, all rows together a permutation of the cells (Spec `rowsSpec`, evaluated by the driver on the
+implementation's rows) -/
+theorem slicePeriodRows_spec (t : List Cell) : rowsSpec t (Triangle.slicePeriodRows t) = true :=
+  AccessorsExtL.rowsSpec_slicePeriodRows t
+
+/-- the keys of `slice_period_rows` are exactly the (metadata, period) pairs present in the cells -/
+theorem slicePeriodRows_keys (t : List Cell) (k : RowKey) :
+    k ∈ (Triangle.slicePeriodRows t).map (·.1) ↔ ∃ c ∈ t, c.rowKey = k := by
+  rw [AccessorsExtL.rows_keys, ((List.mergeSort_perm _ _).map _).mem_iff, JoinL.groupBy_keys,
+    JoinL.mem_firstKeys]
+
+/-- non-vacuity: two slices whose periods overlap ACROSS slices only -- slicewise disjoint, not disjoint -/
+example :
+    let a : Cell := { ps := ⟨2020, 1, 1⟩, pe := ⟨2020, 6, 30⟩, ev := ⟨2020, 6, 30⟩ }
+    let b : Cell := { ps := ⟨2020, 4, 1⟩, pe := ⟨2020, 9, 30⟩, ev := ⟨2020, 9, 30⟩,
+                      md := { country := some "US" } }
+    slicewiseDisjoint [a, b] = true ∧ disjoint [a, b] = false ∧
+      slicewiseDisjoint [a, { b with md := {} }] = false := by decide +kernel
 
 end Bermuda.Properties.C13
